@@ -954,9 +954,27 @@ type ServerCfg struct {
 	ECDHECurve, ECDHEWireCurve uint16
 	ECDHEPoint                 []byte
 	SKXRSA                     *RSAKey // sign the ECDHE parameters with this key instead of Sign.RSA
+	// session tickets (RFC 5077), reference-server side: IssueTicket is sent in a
+	// NewSessionTicket message when the client offered the extension; Resume, when
+	// the client offers exactly Resume.Ticket, makes the server do the abbreviated
+	// handshake from Resume.Master - with Resume.Suite / Resume.Vers, which an
+	// honest server sets to the original session's values
+	IssueTicket []byte
+	Resume      *ResumeState
+	ResumeAny   bool // treat whatever non-empty ticket the client offers as Resume.Ticket
 	// IgnoreClientFinished: an impostor without the pre-master cannot read the
 	// client's Finished; it skips one record and answers with its own Finished.
 	IgnoreClientFinished bool
+}
+
+// ResumeState is what the reference server remembers about a session it issued a ticket for.
+type ResumeState struct {
+	Ticket []byte
+	Master []byte
+	Suite  uint16
+	Vers   uint16
+	// SkipClientFinished: do not wait for the client's Finished (used with deviations
+	// after which an honest client must already have aborted)
 }
 
 // ServerHandshake runs the server side.
@@ -1006,6 +1024,57 @@ func ServerHandshake(c *Conn, cfg *ServerCfg) (*Result, error) {
 		c.RecVers = vers
 	}
 	sh := &ServerHello{Vers: vers, Random: randBytes(cfg.Rand, 32), SessionID: randBytes(cfg.Rand, 32), Suite: suite, Compression: cfg.Compression, Exts: cfg.HelloExts}
+	offeredTicket, ticketExt := FindExt(ch.Exts, ExtSessionTicket)
+	if rs := cfg.Resume; rs != nil && ticketExt && len(offeredTicket) > 0 && (cfg.ResumeAny || bytes.Equal(offeredTicket, rs.Ticket)) {
+		// abbreviated handshake (RFC 5077 figure 2): ServerHello echoing the session
+		// id, ChangeCipherSpec, Finished; then the client's ChangeCipherSpec, Finished
+		sh.SessionID = ch.SessionID
+		sh.Suite = rs.Suite
+		if rs.Vers != 0 {
+			sh.Vers = rs.Vers
+		}
+		suite = sh.Suite
+		res.SH, res.Suite, res.Resumed, res.Master = sh, suite, true, rs.Master
+		if d := Suite(suite); d != nil {
+			c.TLS12 = !d.GM
+		}
+		if err := c.WriteHandshake(HsServerHello, sh.Marshal()); err != nil {
+			return res, err
+		}
+		if err := c.WriteCCS(); err != nil {
+			return res, err
+		}
+		if err := c.switchKeys(res.Master, ch.Random, sh.Random, suite, false, true); err != nil {
+			return res, err
+		}
+		if err := c.WriteHandshake(HsFinished, FinishedData(suite, res.Master, false, c.Transcript)); err != nil {
+			return res, err
+		}
+		m, err := c.ReadHandshake()
+		if err != nil {
+			return res, err
+		}
+		if m.Type != 255 {
+			return res, fmt.Errorf("reftls server: got %s, want ChangeCipherSpec (resumption)", HsName(m.Type))
+		}
+		if err := c.switchKeys(res.Master, ch.Random, sh.Random, suite, false, false); err != nil {
+			return res, err
+		}
+		want := FinishedData(suite, res.Master, true, c.Transcript)
+		if m, err = c.ReadHandshake(); err != nil {
+			return res, err
+		}
+		if m.Type != HsFinished || !bytes.Equal(m.Body, want) {
+			c.WriteRecord(RecAlert, []byte{AlertFatal, AlertDecryptError})
+			return res, errors.New("reftls server: client Finished does not verify (resumption)")
+		}
+		res.PeerFinOK, res.Complete = true, true
+		return res, nil
+	}
+	issue := cfg.IssueTicket != nil && ticketExt
+	if issue {
+		sh.Exts = append(append([]Ext(nil), sh.Exts...), Ext{ExtSessionTicket, nil})
+	}
 	res.SH = sh
 	res.Suite = suite
 	if err := c.WriteHandshake(HsServerHello, sh.Marshal()); err != nil {
@@ -1224,6 +1293,13 @@ func ServerHandshake(c *Conn, cfg *ServerCfg) (*Result, error) {
 			c.WriteRecord(RecAlert, []byte{AlertFatal, AlertDecryptError})
 			return res, errors.New("reftls server: client Finished does not verify")
 		}
+	}
+	if issue {
+		nst := &NewSessionTicket{Lifetime: 7200, Ticket: cfg.IssueTicket}
+		if err := c.WriteHandshake(HsNewSessionTicket, nst.Marshal()); err != nil {
+			return res, err
+		}
+		res.NewTicket = cfg.IssueTicket
 	}
 	if err := c.WriteCCS(); err != nil {
 		return res, err
